@@ -1,4 +1,4 @@
-\* thorough: EVERY day number 0 .. 2932896, every second of five days (epoch, a leap day, a year end, an ordinary day,
+\* thorough: EVERY day number 0 .. 2932896 (twice, at two seconds of day), every second of five days (epoch, a leap day, a year end, an ordinary day,
 \* the last day), every n < 10^6 for each function, boundary lists, more seeded random batches
 SPECIFICATION GSpec
 CONSTANTS
@@ -11,6 +11,7 @@ CONSTANTS
   NumLane = 1
   Batch = 2000
   DaysTo = 2932896
+  DayPasses = 2
   YearsFrom = 1970
   YearsTo = 9999
   SecDays = {0, 11016, 19722, 20000, 2932896}
